@@ -391,6 +391,30 @@ def r3(ctx):
         a = linear(cs[0][2][0], lz)
         b = linear(cs[0][2][1], lz)
         ok = a == ({"lz": -1}, nb) and b == ({}, 1)
+    def match_form(body, prov, payload_form, zero_form, unwrap=lambda x: x):
+        """`match v { 0 => None, n => Some(f(n)) }`: every Some carries `payload_form` (affine in lz), a None exists, and the Some sites are not
+        reachable over the zero edge of a switch on a value with the affine form `zero_form`"""
+        g_ = Guards(body, prov, facts)
+        somes, nones = [], []
+        for lhs, kind, payload, blk, _l in prov.defs.get(0, ()):
+            if kind == "rv" and payload.k == "agg" and blk in body.live_blocks():
+                if payload.j.get("variant") == "Some":
+                    somes.append((blk, unwrap(canon(prov.operand(payload.ops[0])))))
+                elif payload.j.get("variant") == "None":
+                    nones.append(blk)
+        zero_edges = []
+        for bi, t, e in g_.switches():
+            if linear(e, lz) == zero_form and e[0] != "discr":
+                zero_edges += [(bi, tb) for v, tb in t.vals if int(v) == 0]
+            nc = normalised_cmp(e, lz)
+            if nc and nc[2] in ("==", "!=") and (nc[0], nc[1]) == zero_form:
+                f_, tr_ = g_.bool_edges(bi)
+                zero_edges.append((bi, tr_ if nc[2] == "==" else f_))
+        return bool(somes) and bool(nones) and bool(zero_edges) and all(linear(v, lz) == payload_form for _, v in somes) and \
+            not any(sb in body.reachable(tgt) for _, tgt in zero_edges for sb, _ in somes)
+    if not ok:
+        unwrap_bi = lambda x: dict(x[2]).get("0", x) if x[0] == "agg" and x[1].endswith("BucketIndex::BucketIndex") else x
+        ok = match_form(bn, p, ({"lz": -1}, nb - 1), ({"lz": -1}, nb), unwrap_bi)
     rule.check(ok, "BucketIndex::new(d) = checked_sub(NUM_BUCKETS - leading_zeros(d), 1)", "BucketIndex::new|form",
                "BucketIndex::new is %s" % fmt_short(e), loc=bn.loc(bn.line))
     ld = facts.one(r"crate::kbucket::key::Key::<T>::log2_distance")
@@ -409,6 +433,8 @@ def r3(ctx):
                     zero_edges.append((bi, f if nc[2] == "==" else tr))
             r = ld.reachable(0, removed_edges=zero_edges)
             some_ok = v == ({"lz": -1}, nb) and bool(zero_edges) and blk not in r
+    if not some_ok:
+        some_ok = match_form(ld, p, ({"lz": -1}, nb), ({"lz": -1}, nb))
     if not some_ok:
         # `Some(256 - lz).filter(|&d| d != 0)`
         re_ = canon(p.local(0))
@@ -436,6 +462,13 @@ def r3(ctx):
                 return "d"
             return None
         lf = linear(ie, datom)
+        if lf == ({"d": 1}, 0):
+            # the distances were turned into indices up front: `.map(|d| (d - 1) as usize)` over the filtered distances
+            maps = [x for x in walk(ie) if x[0] == "call" and re.search(r"Iterator>?::map$", short(x[1])) and len(x[2]) == 2]
+            if maps:
+                mret = closure_return_in_caller_terms(facts, maps[0][2][1], [("unknown", "distance")])
+                if mret is not None and linear(mret, lambda x: "d" if x == ("unknown", "distance") else None) == ({"d": 1}, -1):
+                    lf = ({"d": 1}, -1)
         rule.check(lf == ({"d": 1}, -1), "nodes_by_distances indexes buckets[d - 1]", "nodes_by_distances|index",
                    "nodes_by_distances indexes buckets[%s]" % fmt_short(ie), loc=nd.loc(t.line))
         src = [x for x in walk(ie) if x[0] == "call" and re.search(r"Iterator::(filter_map|filter)$", short(x[1]))]
@@ -444,11 +477,13 @@ def r3(ctx):
     # the filter: whatever its form (filter_map with comparisons, filter with a range), a distance is admitted only if 1 <= d <= NUM_BUCKETS
     pnd = Prov(nd, facts)
     clos = []
+    clo_exprs = {}
     for bi, t in nd.calls():
         if callee_matches(t, r"Iterator::filter_map$", r"Iterator::filter$") and len(t.args) > 1:
             ce_ = pnd.operand(t.args[1])
             if ce_[0] == "agg" and ":" in ce_[1] and "log2_distances" in fmt_short(pnd.operand(t.args[0])):
                 clos.append((short(t.callee() or "").split("::")[-1], facts.bodies.get(ce_[1].split(":", 1)[1])))
+                clo_exprs[ce_[1].split(":", 1)[1]] = ce_
     clos = [(k, c) for k, c in clos if c is not None]
     if not clos:
         raise AnchorError("nodes_by_distances: the distance filter closure was not found")
@@ -496,6 +531,11 @@ def r3(ctx):
         if not ok:
             # `(1..=NUM_BUCKETS).contains(d)` as the whole predicate
             rv = p.local(0)
+            if fc.path in clo_exprs:
+                # captured bounds (`let max = NUM_BUCKETS as u64; .. (1..=max).contains(d)`) are read in the caller's terms
+                rv2 = closure_return_in_caller_terms(facts, clo_exprs[fc.path], [("param", 2, fc.local_name(2) or "d")])
+                if rv2 is not None:
+                    rv = rv2
             alts = rv[1] if rv[0] == "phi" else (rv,)
             alts = [a for a in alts if const_int_of(a) != 0]
             def is_range_test(a):
